@@ -366,8 +366,25 @@ func genTail(r *core.Rng, p *RPlan, ops []ROp, fired []int) []ROp {
 	}
 	if r.Chance(19, 20) {
 		ops = append(ops, ROp{K: opClose})
-		for k := r.Intn(3); k > 0; k-- {
-			switch r.Intn(4) {
+		// the history may go on after Close: pushes keep working, Maintain and
+		// a second Close must fail. Offsets continue after / re-use those of
+		// the history so far.
+		var maxOff uint32
+		var used []uint32
+		for _, o := range ops {
+			if o.K == opPushMsg || o.K == opPushRaw {
+				used = append(used, o.Off)
+				if o.Off > maxOff {
+					maxOff = o.Off
+				}
+			}
+		}
+		n := r.Intn(3)
+		if r.Chance(1, 4) {
+			n = r.Range(3, 8)
+		}
+		for k := n; k > 0; k-- {
+			switch r.Intn(5) {
 			case 0:
 				ops = append(ops, ROp{K: opClose})
 			case 1:
@@ -375,7 +392,20 @@ func genTail(r *core.Rng, p *RPlan, ops []ROp, fired []int) []ROp {
 			case 2:
 				ops = append(ops, ROp{K: opSleep, D: sleepChoices(r, p.Timeout, fired)}, ROp{K: opMaintain})
 			default:
-				ops = append(ops, ROp{K: opPushMsg, Off: uint32(r.Intn(8)), Typ: core.Pick[uint16](r, tSYSCALL, tUSERAUTH)})
+				off := uint32(r.Intn(8))
+				switch r.Intn(3) {
+				case 0:
+					if len(used) > 0 {
+						off = used[r.Intn(len(used))] // a sequence number seen before Close
+					}
+				case 1:
+					if maxOff+8 <= spanMax {
+						off = maxOff + uint32(r.Range(1, 6)) // carry on after the history, possibly with a gap
+						maxOff = off
+					}
+				}
+				ops = append(ops, ROp{K: opPushMsg, Off: off, Typ: core.Pick[uint16](r, tSYSCALL, tUSERAUTH, tPROCTITLE, tEOE, tPATH)})
+				used = append(used, off)
 			}
 		}
 	}
